@@ -14,6 +14,10 @@ def main():
         p = os.path.join(HERE, d)
         if os.path.isdir(p):
             ok = compileall.compile_dir(p, quiet=1, legacy=False, force=True) and ok
+    sys.path.insert(0, HERE)
+    from mc import vclock
+
+    vclock.install()  # the clock seam must be in place before esrally is imported
     import esrally  # noqa
 
     for name in sorted(os.listdir(os.path.join(HERE, "mc"))):
